@@ -6,19 +6,19 @@ Require Import Raft.Quorum Raft.QuorumProofs Raft.RaftModel Raft.RaftSys Raft.Ra
 Import ListNotations.
 
 Section Leader.
-  Variables c0 c1 : list nat.
-  Hypothesis Hcfg : c0 <> [] \/ c1 <> [].
+  Variable F : list (list nat * list nat).
+  Hypothesis HF : inter_family F.
 
   Lemma inv_leader_log : forall s id n' p,
-    Inv c0 c1 s ->
+    Inv F s ->
     let n := nodes s id in
     let t := n_term n in
     let L := n_log n in
     let L' := L ++ [(t, p)] in
     n_term n' = t -> n_vote n' = n_vote n -> n_commit n' = n_commit n -> n_log n' = L' -> n_role n' = Leader ->
     (forall x, n_match n' x <= (if x =? id then length L' else ga s x t)) ->
-    (n_role n = Leader \/ (n_role n = Candidate /\ Qr c0 c1 (granted (n_votes n)))) ->
-    Inv c0 c1 (mkM (upd (nodes s) id n') (msgs s) (gv s) (upd2 (ga s) id t (length L'))
+    (n_role n = Leader \/ (n_role n = Candidate /\ Qr F (granted (n_votes n)))) ->
+    Inv F (mkM (upd (nodes s) id n') (msgs s) (gv s) (upd2 (ga s) id t (length L'))
                    (upd (LL s) t L') (upd (lof s) t (Some id))).
   Proof.
     intros s id n' p I n t L L' Hterm Hvote Hcommit Hlog Hrole Hmatch Hpre.
@@ -26,28 +26,28 @@ Section Leader.
                    (upd (LL s) t L') (upd (lof s) t (Some id))).
     assert (HlenL' : length L' = S (length L)) by (unfold L'; rewrite app_length; cbn; lia).
     (* ---- preliminary facts *)
-    assert (P2 : Qr c0 c1 (votedp s t id)).
+    assert (P2 : Qr F (votedp s t id)).
     { destruct Hpre as [Hl|[Hc Hq]].
-      - apply (hA6a _ _ _ I). apply (hA6b _ _ _ I id Hl).
+      - apply (hA6a _ _ I). apply (hA6b _ _ I id Hl).
       - eapply Qr_mono; [|exact Hq]. intros x Hx. unfold granted in Hx. unfold votedp. apply opt_nat_eqb_eq.
-        apply (hA5 _ _ _ I id x Hc). unfold nd. fold n. destruct (n_votes n x) as [[|]|]; try discriminate. reflexivity. }
+        apply (hA5 _ _ I id x Hc). unfold nd. fold n. destruct (n_votes n x) as [[|]|]; try discriminate. reflexivity. }
     assert (Pun : forall l, lof s t = Some l -> l = id).
-    { intros l Hl. pose proof (hA6a _ _ _ I t l Hl) as Hq.
-      destruct (Qr_inter c0 c1 Hcfg _ _ Hq P2) as (v & Hv1 & Hv2). unfold votedp in *.
+    { intros l Hl. pose proof (hA6a _ _ I t l Hl) as Hq.
+      destruct (Qr_inter F HF _ _ Hq P2) as (v & Hv1 & Hv2). unfold votedp in *.
       apply opt_nat_eqb_eq in Hv1. apply opt_nat_eqb_eq in Hv2. congruence. }
     assert (P3 : forall l, l <> id -> n_role (nodes s l) = Leader -> n_term (nodes s l) <> t).
-    { intros l Hl Hr Ht. apply Hl. apply Pun. rewrite <- Ht. apply (hA6b _ _ _ I l Hr). }
+    { intros l Hl Hr Ht. apply Hl. apply Pun. rewrite <- Ht. apply (hA6b _ _ I l Hr). }
     assert (P1 : (LL s t = L /\ n_role n = Leader) \/ (LL s t = [] /\ n_role n = Candidate)).
-    { destruct Hpre as [Hl|[Hc Hq]]; [left; split; [apply (hW5 _ _ _ I id Hl)|exact Hl]|right].
-      split; [|exact Hc]. apply (hW7 _ _ _ I). destruct (lof s t) as [l|] eqn:El; [|reflexivity].
-      exfalso. pose proof (Pun l eq_refl) as ->. apply (hA7 _ _ _ I t id El); [reflexivity|exact Hc]. }
+    { destruct Hpre as [Hl|[Hc Hq]]; [left; split; [apply (hW5 _ _ I id Hl)|exact Hl]|right].
+      split; [|exact Hc]. apply (hW7 _ _ I). destruct (lof s t) as [l|] eqn:El; [|reflexivity].
+      exfalso. pose proof (Pun l eq_refl) as ->. apply (hA7 _ _ I t id El); [reflexivity|exact Hc]. }
     assert (Psuf : exists suf, L' = LL s t ++ suf).
     { destruct P1 as [[-> _]|[-> _]]; [exists [(t, p)]; reflexivity|exists L'; reflexivity]. }
     assert (PlenLL : length (LL s t) <= length L) by (destruct P1 as [[-> _]|[-> _]]; cbn; lia).
     assert (P6 : 1 <= t).
-    { apply (hA8 _ _ _ I id). unfold nd. fold n. destruct Hpre as [H|[H _]]; congruence. }
-    assert (PleL : terms_le L t) by (apply (hW4 _ _ _ I id)).
-    assert (P7 : ga s id t <= length L) by (pose proof (hK1 _ _ _ I id t); lia).
+    { apply (hA8 _ _ I id). unfold nd. fold n. destruct Hpre as [H|[H _]]; congruence. }
+    assert (PleL : terms_le L t) by (apply (hW4 _ _ I id)).
+    assert (P7 : ga s id t <= length L) by (pose proof (hK1 _ _ I id t); lia).
     assert (Hnd : forall x, x <> id -> nodes s' x = nodes s x).
     { intros x Hx. unfold s'. cbn [nodes]. apply upd_other. exact Hx. }
     assert (Hid : nodes s' id = n') by (unfold s'; cbn [nodes]; apply upd_same).
@@ -68,9 +68,9 @@ Section Leader.
       - intros t'. destruct (Nat.eq_dec t' t) as [->|Ht'].
         + rewrite HLLt. exact Psuf.
         + exists []. rewrite HLLo by exact Ht'. rewrite app_nil_r. reflexivity. }
-    assert (Hneverq : forall t' k', neverq c0 c1 s t' k' -> neverq c0 c1 s' t' k') by (intros; eapply ext_neverq; eassumption).
+    assert (Hneverq : forall t' k', neverq F s t' k' -> neverq F s' t' k') by (intros; eapply ext_neverq; eassumption).
     assert (HwfL' : wf (LL s') L').
-    { apply wf_app_last; [|exact HLLt]. apply (wf_ext s s' L E). apply (hW1 _ _ _ I id). }
+    { apply wf_app_last; [|exact HLLt]. apply (wf_ext s s' L E). apply (hW1 _ _ I id). }
     (* a new valid index of term t is the last one *)
     assert (P5 : forall k, valid s' t k -> length (LL s t) < k -> k = length L').
     { intros k [[Hk1 Hk2] Hk3] Hgt. rewrite HLLt in Hk2, Hk3.
@@ -79,114 +79,114 @@ Section Leader.
       - destruct (le_lt_dec k (length L)) as [Hle|Hlt]; [|lia]. exfalso.
         unfold L' in Hk3. rewrite term_at_app_l in Hk3 by lia.
         destruct (term_at_in L k ltac:(lia)) as (e & He & Hfe).
-        pose proof (hW11 _ _ _ I id Hc e He) as H11. unfold nd in H11. fold n in H11. fold t in H11. lia. }
+        pose proof (hW11 _ _ I id Hc e He) as H11. unfold nd in H11. fold n in H11. fold t in H11. lia. }
     (* the voters of a later term never acknowledge the new index *)
-    assert (Pnever : forall t3, t < t3 -> LL s t3 <> [] -> neverq c0 c1 s' t (length L')).
-    { intros t3 Hlt Hne. destruct (lof s t3) as [l3|] eqn:El3; [|exfalso; apply Hne; apply (hW7 _ _ _ I); exact El3].
-      eapply Qr_mono; [|exact (hA6a _ _ _ I t3 l3 El3)].
+    assert (Pnever : forall t3, t < t3 -> LL s t3 <> [] -> neverq F s' t (length L')).
+    { intros t3 Hlt Hne. destruct (lof s t3) as [l3|] eqn:El3; [|exfalso; apply Hne; apply (hW7 _ _ I); exact El3].
+      eapply Qr_mono; [|exact (hA6a _ _ I t3 l3 El3)].
       intros x Hx. unfold votedp in Hx. apply opt_nat_eqb_eq in Hx.
       assert (Htx : t3 <= n_term (nodes s x)).
       { destruct (le_lt_dec t3 (n_term (nodes s x))) as [H|H]; [exact H|].
-        pose proof (hA1 _ _ _ I x t3 H). congruence. }
+        pose proof (hA1 _ _ I x t3 H). congruence. }
       assert (Hxid : x <> id) by (intros ->; fold n in Htx; fold t in Htx; lia).
       unfold neverp, nd. rewrite Hterm'. apply andb_true_iff. split; [apply Nat.ltb_lt; lia|].
-      apply Nat.ltb_lt. rewrite Hgao by (left; exact Hxid). pose proof (hK1 _ _ _ I x t). lia. }
+      apply Nat.ltb_lt. rewrite Hgao by (left; exact Hxid). pose proof (hK1 _ _ I x t). lia. }
     constructor.
-    - (* iA1 *) intros x t' Ht'. unfold nd in Ht'. rewrite Hterm' in Ht'. apply (hA1 _ _ _ I x t' Ht').
+    - (* iA1 *) intros x t' Ht'. unfold nd in Ht'. rewrite Hterm' in Ht'. apply (hA1 _ _ I x t' Ht').
     - (* iA2 *) intros x. unfold nd. change (gv s x (n_term (nodes s' x)) = n_vote (nodes s' x)). rewrite Hterm'.
-      destruct (Nat.eq_dec x id) as [->|Hx]; [rewrite Hid, Hvote|rewrite Hnd by exact Hx]; apply (hA2 _ _ _ I).
-    - (* iA3 *) intros x t' c Hg. unfold nd. rewrite Hterm'. apply (hA3 _ _ _ I x t' c Hg).
-    - exact (hA4 _ _ _ I).
+      destruct (Nat.eq_dec x id) as [->|Hx]; [rewrite Hid, Hvote|rewrite Hnd by exact Hx]; apply (hA2 _ _ I).
+    - (* iA3 *) intros x t' c Hg. unfold nd. rewrite Hterm'. apply (hA3 _ _ I x t' c Hg).
+    - exact (hA4 _ _ I).
     - (* iA5 *) intros c x Hr Hv. unfold nd in *. rewrite Hterm'.
       destruct (Nat.eq_dec c id) as [->|Hc']; [rewrite Hid in Hr; congruence|].
-      rewrite Hnd in Hr, Hv by exact Hc'. apply (hA5 _ _ _ I c x Hr Hv).
+      rewrite Hnd in Hr, Hv by exact Hc'. apply (hA5 _ _ I c x Hr Hv).
     - (* iA6a *) intros t' l Hl. change (upd (lof s) t (Some id) t' = Some l) in Hl.
-      change (Qr c0 c1 (votedp s t' l)).
+      change (Qr F (votedp s t' l)).
       destruct (Nat.eq_dec t' t) as [->|Ht'].
       + rewrite upd_same in Hl. injection Hl as <-. exact P2.
-      + rewrite upd_other in Hl by exact Ht'. apply (hA6a _ _ _ I t' l Hl).
+      + rewrite upd_other in Hl by exact Ht'. apply (hA6a _ _ I t' l Hl).
     - (* iA6b *) intros l Hr. unfold nd in *. rewrite Hterm'. change (upd (lof s) t (Some id) (n_term (nodes s l)) = Some l).
       destruct (Nat.eq_dec l id) as [->|Hl].
       + fold n. fold t. apply upd_same.
-      + rewrite Hnd in Hr by exact Hl. rewrite upd_other by (apply P3; assumption). apply (hA6b _ _ _ I l Hr).
+      + rewrite Hnd in Hr by exact Hl. rewrite upd_other by (apply P3; assumption). apply (hA6b _ _ I l Hr).
     - (* iA7 *) intros t' l Hl Ht'. unfold nd in *. rewrite Hterm' in Ht'. change (upd (lof s) t (Some id) t' = Some l) in Hl.
       destruct (Nat.eq_dec l id) as [->|Hl'].
       + rewrite Hid. congruence.
       + rewrite Hnd by exact Hl'. destruct (Nat.eq_dec t' t) as [->|Ht''].
         * rewrite upd_same in Hl. congruence.
-        * rewrite upd_other in Hl by exact Ht''. apply (hA7 _ _ _ I t' l Hl Ht').
+        * rewrite upd_other in Hl by exact Ht''. apply (hA7 _ _ I t' l Hl Ht').
     - (* iA8 *) intros x Hr. unfold nd in *. rewrite Hterm'.
       destruct (Nat.eq_dec x id) as [->|Hx]; [fold n; fold t; exact P6|].
-      rewrite Hnd in Hr by exact Hx. apply (hA8 _ _ _ I x Hr).
+      rewrite Hnd in Hr by exact Hx. apply (hA8 _ _ I x Hr).
     - (* iW1 *) intros x. unfold nd.
       destruct (Nat.eq_dec x id) as [->|Hx]; [rewrite Hid, Hlog; exact HwfL'|].
-      rewrite Hnd by exact Hx. apply (wf_ext s s' _ E). apply (hW1 _ _ _ I x).
+      rewrite Hnd by exact Hx. apply (wf_ext s s' _ E). apply (hW1 _ _ I x).
     - (* iW2 *) intros t'. destruct (Nat.eq_dec t' t) as [->|Ht']; [rewrite HLLt; exact HwfL'|].
-      rewrite HLLo by exact Ht'. apply (wf_ext s s' _ E). apply (hW2 _ _ _ I t').
-    - (* iW3 *) intros t'. destruct (Nat.eq_dec t' t) as [->|Ht']; [rewrite HLLt|rewrite HLLo by exact Ht'; apply (hW3 _ _ _ I t')].
+      rewrite HLLo by exact Ht'. apply (wf_ext s s' _ E). apply (hW2 _ _ I t').
+    - (* iW3 *) intros t'. destruct (Nat.eq_dec t' t) as [->|Ht']; [rewrite HLLt|rewrite HLLo by exact Ht'; apply (hW3 _ _ I t')].
       split; [|split].
       + intros e He. unfold L' in He. apply in_app_or in He as [He|[<-|[]]]; [|cbn; exact P6].
-        apply (wf_terms_pos c0 c1 s I L (hW1 _ _ _ I id) e He).
+        apply (wf_terms_pos F s I L (hW1 _ _ I id) e He).
       + intros e He. unfold L' in He. apply in_app_or in He as [He|[<-|[]]]; [apply PleL; exact He|cbn; lia].
-      + unfold L'. apply sorted_app_last; [apply (wf_sorted c0 c1 s I L (hW1 _ _ _ I id))|exact PleL].
+      + unfold L'. apply sorted_app_last; [apply (wf_sorted F s I L (hW1 _ _ I id))|exact PleL].
     - (* iW4 *) intros x e He. unfold nd in *. rewrite Hterm'.
-      destruct (Nat.eq_dec x id) as [->|Hx]; [|rewrite Hnd in He by exact Hx; apply (hW4 _ _ _ I x e He)].
+      destruct (Nat.eq_dec x id) as [->|Hx]; [|rewrite Hnd in He by exact Hx; apply (hW4 _ _ I x e He)].
       rewrite Hid, Hlog in He. fold n. fold t. unfold L' in He.
       apply in_app_or in He as [He|[<-|[]]]; [apply PleL; exact He|cbn; lia].
     - (* iW5 *) intros x Hr. unfold nd in *. rewrite Hterm'.
       destruct (Nat.eq_dec x id) as [->|Hx].
       + rewrite Hid, Hlog. fold n. fold t. exact HLLt.
-      + rewrite Hnd in Hr |- * by exact Hx. rewrite HLLo by (apply P3; assumption). apply (hW5 _ _ _ I x Hr).
+      + rewrite Hnd in Hr |- * by exact Hx. rewrite HLLo by (apply P3; assumption). apply (hW5 _ _ I x Hr).
     - (* iW7 *) intros t' Hl. change (upd (lof s) t (Some id) t' = None) in Hl.
       destruct (Nat.eq_dec t' t) as [->|Ht']; [rewrite upd_same in Hl; discriminate|].
-      rewrite upd_other in Hl by exact Ht'. rewrite HLLo by exact Ht'. apply (hW7 _ _ _ I t' Hl).
+      rewrite upd_other in Hl by exact Ht'. rewrite HLLo by exact Ht'. apply (hW7 _ _ I t' Hl).
     - (* iW8 *) intros t' l Hl. change (upd (lof s) t (Some id) t' = Some l) in Hl.
       destruct (Nat.eq_dec t' t) as [->|Ht'].
       + rewrite HLLt. unfold L'. destruct L; discriminate.
-      + rewrite upd_other in Hl by exact Ht'. rewrite HLLo by exact Ht'. apply (hW8 _ _ _ I t' l Hl).
-    - (* iW9 *) apply (iW9_ext c0 c1 s s' E); [reflexivity|exact (hW9 _ _ _ I)].
+      + rewrite upd_other in Hl by exact Ht'. rewrite HLLo by exact Ht'. apply (hW8 _ _ I t' l Hl).
+    - (* iW9 *) apply (iW9_ext F s s' E); [reflexivity|exact (hW9 _ _ I)].
     - (* iW10 *) intros m Hm Hty Hr Htm. unfold nd in *. rewrite Hterm' in Htm.
       destruct (Nat.eq_dec (m_from m) id) as [Hx|Hx]; [rewrite Hx, Hid in Hr; congruence|].
-      rewrite Hnd in Hr |- * by exact Hx. apply (hW10 _ _ _ I m Hm Hty Hr Htm).
+      rewrite Hnd in Hr |- * by exact Hx. apply (hW10 _ _ I m Hm Hty Hr Htm).
     - (* iW11 *) intros x Hr. unfold nd in *. rewrite Hterm'.
       destruct (Nat.eq_dec x id) as [->|Hx]; [rewrite Hid in Hr; congruence|].
-      rewrite Hnd in Hr |- * by exact Hx. apply (hW11 _ _ _ I x Hr).
-    - (* iW12 *) intros m Hm Hty. unfold nd. rewrite Hterm'. apply (hW12 _ _ _ I m Hm Hty).
-    - (* iW13 *) apply (iW13_ext c0 c1 s s' E); [reflexivity|exact (hW13 _ _ _ I)].
+      rewrite Hnd in Hr |- * by exact Hx. apply (hW11 _ _ I x Hr).
+    - (* iW12 *) intros m Hm Hty. unfold nd. rewrite Hterm'. apply (hW12 _ _ I m Hm Hty).
+    - (* iW13 *) apply (iW13_ext F s s' E); [reflexivity|exact (hW13 _ _ I)].
     - (* iK1 *) intros x t'. destruct (Nat.eq_dec t' t) as [->|Ht'].
       + rewrite HLLt. destruct (Nat.eq_dec x id) as [->|Hx]; [rewrite Hgat; lia|].
-        rewrite Hgao by (left; exact Hx). pose proof (hK1 _ _ _ I x t). lia.
-      + rewrite HLLo by exact Ht'. rewrite Hgao by (right; exact Ht'). apply (hK1 _ _ _ I).
+        rewrite Hgao by (left; exact Hx). pose proof (hK1 _ _ I x t). lia.
+      + rewrite HLLo by exact Ht'. rewrite Hgao by (right; exact Ht'). apply (hK1 _ _ I).
     - (* iK2 *) intros x t' Hg. unfold nd. rewrite Hterm'.
       destruct (Nat.eq_dec x id) as [->|Hx].
       + destruct (Nat.eq_dec t' t) as [->|Ht']; [fold n; fold t; lia|].
-        rewrite Hgao in Hg by (right; exact Ht'). apply (hK2 _ _ _ I id t' Hg).
-      + rewrite Hgao in Hg by (left; exact Hx). apply (hK2 _ _ _ I x t' Hg).
+        rewrite Hgao in Hg by (right; exact Ht'). apply (hK2 _ _ I id t' Hg).
+      + rewrite Hgao in Hg by (left; exact Hx). apply (hK2 _ _ I x t' Hg).
     - (* iK3 *) intros x. unfold nd. rewrite Hterm'.
       destruct (Nat.eq_dec x id) as [->|Hx].
       + rewrite Hid, Hlog. fold n. fold t. rewrite Hgat, HLLt. split; [lia|reflexivity].
       + rewrite Hnd by exact Hx. rewrite Hgao by (left; exact Hx).
-        destruct (hK3 _ _ _ I x) as [H1 H2]. unfold nd in H1, H2. split; [exact H1|].
-        rewrite (ext_LL_firstn s s' E) by (apply (hK1 _ _ _ I)). exact H2.
-    - (* iK4 *) apply (iK4_ext s s' E); [reflexivity|exact (hK4 _ _ _ I)].
+        destruct (hK3 _ _ I x) as [H1 H2]. unfold nd in H1, H2. split; [exact H1|].
+        rewrite (ext_LL_firstn s s' E) by (apply (hK1 _ _ I)). exact H2.
+    - (* iK4 *) apply (iK4_ext s s' E); [reflexivity|exact (hK4 _ _ I)].
     - (* iK5 *) intros l x Hr. unfold nd in *. rewrite Hterm'.
       destruct (Nat.eq_dec l id) as [->|Hl].
       + rewrite Hid. fold n. fold t. pose proof (Hmatch x) as Hm.
         destruct (Nat.eqb_spec x id) as [->|Hx]; [rewrite Hgat; exact Hm|rewrite Hgao by (left; exact Hx); exact Hm].
-      + rewrite Hnd in Hr |- * by exact Hl. rewrite Hgao by (right; apply P3; assumption). apply (hK5 _ _ _ I l x Hr).
+      + rewrite Hnd in Hr |- * by exact Hl. rewrite Hgao by (right; apply P3; assumption). apply (hK5 _ _ I l x Hr).
     - (* iK6 *) intros x t' k Hv Hk. unfold nd.
       destruct (Nat.eq_dec x id) as [->|Hx].
       + rewrite Hid, Hlog. destruct (Nat.eq_dec t' t) as [->|Ht'].
         * left. rewrite Hgat in Hk. split; [exact Hk|rewrite HLLt; reflexivity].
         * rewrite Hgao in Hk by (right; exact Ht').
-          assert (HkLL : k <= length (LL s t')) by (pose proof (hK1 _ _ _ I id t'); lia).
+          assert (HkLL : k <= length (LL s t')) by (pose proof (hK1 _ _ I id t'); lia).
           pose proof (ext_valid_back s s' E t' k Hv HkLL) as Hv0.
-          destruct (hK6 _ _ _ I id t' k Hv0 Hk) as [Hh|Hn]; [|right; apply Hneverq; exact Hn].
+          destruct (hK6 _ _ I id t' k Hv0 Hk) as [Hh|Hn]; [|right; apply Hneverq; exact Hn].
           left. apply (ext_has s s' E); [|exact HkLL]. unfold L'. apply has_app. exact Hh.
       + rewrite Hnd by exact Hx. rewrite Hgao in Hk by (left; exact Hx).
-        assert (HkLL : k <= length (LL s t')) by (pose proof (hK1 _ _ _ I x t'); lia).
+        assert (HkLL : k <= length (LL s t')) by (pose proof (hK1 _ _ I x t'); lia).
         pose proof (ext_valid_back s s' E t' k Hv HkLL) as Hv0.
-        apply (ext_has_or_never c0 c1 s s' E); [exact HkLL|]. apply (hK6 _ _ _ I x t' k Hv0 Hk).
+        apply (ext_has_or_never F s s' E); [exact HkLL|]. apply (hK6 _ _ I x t' k Hv0 Hk).
     - (* iK7 *) intros t' t3 k Hlt Hne Hv.
       destruct (le_lt_dec k (length (LL s t'))) as [HkLL|HkLL].
       + (* an index that was already valid *)
@@ -194,26 +194,26 @@ Section Leader.
         destruct (Nat.eq_dec t3 t) as [->|Ht3].
         * rewrite HLLt. destruct P1 as [[E1 Hl]|[E1 Hc]].
           -- (* propose: the leader log already existed *)
-             assert (Hne0 : LL s t <> []) by (apply (hW8 _ _ _ I t id); apply (hA6b _ _ _ I id Hl)).
-             destruct (hK7 _ _ _ I t' t k Hlt Hne0 Hv0) as [Hh|Hn]; [|right; apply Hneverq; exact Hn].
+             assert (Hne0 : LL s t <> []) by (apply (hW8 _ _ I t id); apply (hA6b _ _ I id Hl)).
+             destruct (hK7 _ _ I t' t k Hlt Hne0 Hv0) as [Hh|Hn]; [|right; apply Hneverq; exact Hn].
              left. apply (ext_has s s' E); [|exact HkLL]. rewrite E1 in Hh. unfold L'. apply has_app. exact Hh.
           -- (* win: leader completeness for the new term *)
              destruct Hpre as [Hl|[_ Hq]]; [unfold nd in Hc; congruence|].
-             destruct (Qr_dec c0 c1 (neverp s t' k)) as [Hn|Hn]; [right; apply Hneverq; exact Hn|].
-             destruct (Qr_witness c0 c1 _ _ Hq Hn) as (x & Hgx & Hnx).
+             destruct (Qr_dec F (neverp s t' k)) as [Hn|Hn]; [right; apply Hneverq; exact Hn|].
+             destruct (Qr_witness F _ _ Hq Hn) as (x & Hgx & Hnx).
              assert (Hvx : gv s x t = Some id).
-             { apply (hA5 _ _ _ I id x Hc). unfold nd. fold n. unfold granted in Hgx.
+             { apply (hA5 _ _ I id x Hc). unfold nd. fold n. unfold granted in Hgx.
                destruct (n_votes n x) as [[|]|]; try discriminate. reflexivity. }
              assert (Htx : t <= n_term (nodes s x)).
              { destruct (le_lt_dec t (n_term (nodes s x))) as [H|H]; [exact H|].
-               pose proof (hA1 _ _ _ I x t H). congruence. }
+               pose proof (hA1 _ _ I x t H). congruence. }
              unfold neverp, nd in Hnx. apply andb_false_iff in Hnx as [Hnx|Hnx];
                [apply Nat.ltb_ge in Hnx; lia|apply Nat.ltb_ge in Hnx].
-             destruct (hK8 _ _ _ I id x t' k Hc Hvx Hlt Hv0 Hnx) as [Hh|Hn']; [|contradiction].
+             destruct (hK8 _ _ I id x t' k Hc Hvx Hlt Hv0 Hnx) as [Hh|Hn']; [|contradiction].
              left. apply (ext_has s s' E); [|exact HkLL]. unfold nd in Hh. fold n in Hh. fold L in Hh.
              unfold L'. apply has_app. exact Hh.
         * rewrite HLLo in Hne |- * by exact Ht3.
-          apply (ext_has_or_never c0 c1 s s' E); [exact HkLL|]. apply (hK7 _ _ _ I t' t3 k Hlt Hne Hv0).
+          apply (ext_has_or_never F s s' E); [exact HkLL|]. apply (hK7 _ _ I t' t3 k Hlt Hne Hv0).
       + (* a new index: t' = t and k is the entry just appended *)
         assert (Et' : t' = t).
         { destruct (Nat.eq_dec t' t) as [Eq|Nq]; [exact Eq|]. destruct Hv as [[_ Hk2] _]. rewrite HLLo in Hk2 by exact Nq. lia. }
@@ -225,32 +225,32 @@ Section Leader.
       assert (Hk' : ga s' x t' = ga s x t').
       { apply Hgao. destruct (Nat.eq_dec x id) as [->|Hx]; [|left; exact Hx]. right. intros ->.
         destruct (le_lt_dec (n_term (nodes s c)) t) as [Hle|Hgt]; [lia|].
-        pose proof (hA1 _ _ _ I id (n_term (nodes s c))) as H1. unfold nd in H1. fold n in H1. fold t in H1.
+        pose proof (hA1 _ _ I id (n_term (nodes s c))) as H1. unfold nd in H1. fold n in H1. fold t in H1.
         change (gv s id (n_term (nodes s c)) = Some c) in Hg. rewrite H1 in Hg by exact Hgt. discriminate. }
       rewrite Hk' in Hk.
-      assert (HkLL : k <= length (LL s t')) by (pose proof (hK1 _ _ _ I x t'); lia).
+      assert (HkLL : k <= length (LL s t')) by (pose proof (hK1 _ _ I x t'); lia).
       pose proof (ext_valid_back s s' E t' k Hv HkLL) as Hv0.
-      apply (ext_has_or_never c0 c1 s s' E); [exact HkLL|]. apply (hK8 _ _ _ I c x t' k Hr Hg Ht' Hv0 Hk).
+      apply (ext_has_or_never F s s' E); [exact HkLL|]. apply (hK8 _ _ I c x t' k Hr Hg Ht' Hv0 Hk).
     - (* iK9 *) intros x. unfold nd. rewrite Hterm'.
       assert (Hgen : forall Lx, n_commit (nodes s x) <= length Lx ->
-                (n_commit (nodes s x) = 0 \/ exists t0 k0, t0 <= n_term (nodes s x) /\ committed_at c0 c1 s t0 k0 /\
+                (n_commit (nodes s x) = 0 \/ exists t0 k0, t0 <= n_term (nodes s x) /\ committed_at F s t0 k0 /\
                    n_commit (nodes s x) <= k0 /\ firstn (n_commit (nodes s x)) Lx = firstn (n_commit (nodes s x)) (LL s t0)) ->
-                (n_commit (nodes s x) = 0 \/ exists t0 k0, t0 <= n_term (nodes s x) /\ committed_at c0 c1 s' t0 k0 /\
+                (n_commit (nodes s x) = 0 \/ exists t0 k0, t0 <= n_term (nodes s x) /\ committed_at F s' t0 k0 /\
                    n_commit (nodes s x) <= k0 /\ firstn (n_commit (nodes s x)) Lx = firstn (n_commit (nodes s x)) (LL s' t0))).
       { intros Lx _ [Hz|(t0 & k0 & Ht0 & Hc0 & Hk0 & Hf)]; [left; exact Hz|].
-        right. exists t0, k0. split; [exact Ht0|]. split; [apply (ext_committed_at c0 c1 s s' E); exact Hc0|].
+        right. exists t0, k0. split; [exact Ht0|]. split; [apply (ext_committed_at F s s' E); exact Hc0|].
         split; [exact Hk0|]. rewrite (ext_LL_firstn s s' E); [exact Hf|]. destruct Hc0 as [[[_ Hb] _] _]. lia. }
-      destruct (hK9 _ _ _ I x) as [H1 H2]. unfold nd in H1, H2.
+      destruct (hK9 _ _ I x) as [H1 H2]. unfold nd in H1, H2.
       destruct (Nat.eq_dec x id) as [->|Hx].
       + rewrite Hid, Hlog, Hcommit. fold n in H1, H2 |- *. fold L in H1, H2. split; [lia|].
         assert (Hpre' : firstn (n_commit n) L' = firstn (n_commit n) L) by (unfold L'; apply firstn_app_le; exact H1).
         destruct (Hgen L H1 H2) as [Hz|(t0 & k0 & Ht0 & Hc0 & Hk0 & Hf)]; [left; exact Hz|].
         right. exists t0, k0. split; [exact Ht0|split; [exact Hc0|split; [exact Hk0|]]]. rewrite Hpre'. exact Hf.
       + rewrite Hnd by exact Hx. split; [exact H1|]. apply (Hgen _ H1 H2).
-    - (* iK10 *) apply (iK10_ext c0 c1 s s' E); [reflexivity|exact (hK10 _ _ _ I)].
+    - (* iK10 *) apply (iK10_ext F s s' E); [reflexivity|exact (hK10 _ _ I)].
     - (* iK11 *) intros l Hr. unfold nd in *. rewrite Hterm'.
       destruct (Nat.eq_dec l id) as [->|Hl].
       + rewrite Hid, Hlog. fold n. fold t. exact Hgat.
-      + rewrite Hnd in Hr |- * by exact Hl. rewrite Hgao by (left; exact Hl). apply (hK11 _ _ _ I l Hr).
+      + rewrite Hnd in Hr |- * by exact Hl. rewrite Hgao by (left; exact Hl). apply (hK11 _ _ I l Hr).
   Qed.
 End Leader.
